@@ -195,6 +195,7 @@ def gen_kernel(rng, isa, forms, n=None):
     pool = X86_REGS if isa == "x86" else A64_REGS
     n = n or rng.choice([2, 3, 4, 5, 6, 8, 10, 14])
     lines = []
+    last_mem = None
     for _ in range(n):
         f = rng.choice(forms)
         ops = []
@@ -203,7 +204,12 @@ def gen_kernel(rng, isa, forms, n=None):
         first = None
         for k in f["kinds"]:
             if k == "mem":
-                t, info = gen_mem(rng, isa)
+                if last_mem is not None and not last_mem[1]["pre"] and last_mem[1]["post"] is None and rng.random() < 0.4:
+                    # the very same location again: store -> reload links, read-modify-write followed by a reload
+                    t, info = last_mem[0], dict(last_mem[1])
+                else:
+                    t, info = gen_mem(rng, isa)
+                last_mem = (t, info)
                 ops.append(t)
                 infos.append(("mem", info))
             elif k == "imm":
